@@ -200,5 +200,9 @@ pub mod pipeline {
 		pub fn visible(&self) -> u64 {
 			self.inner.get_visible_seq_num()
 		}
+
+		pub fn available_permits(&self) -> usize {
+			self.inner.available_permits()
+		}
 	}
 }
